@@ -20,8 +20,13 @@ package fiber
 
 // Every helper that bypasses Set() funnels through here: Location, Links, Attachment, Download, JSONP,
 // (*Redirect).To.
+// (after fix 5788fb4) SetCanonical stores the bytes verbatim: what setCanonical hands over is the handler's value with
+// every control byte other than HTAB blanked (headerValue) - one line, and nothing a strict client refuses.
 //@ func (*DefaultCtx).setCanonical
 //@   pure
+//@   atcall @fasthttp.(*ResponseHeader).SetCanonical: no-control-byte-reaches-a-header-value: cleanValue(str(value))
+//@   atcall @fasthttp.(*ResponseHeader).SetCanonical: key-as-given-value-blanked-bytewise: str(key) == old(key) && blankedCopy(str(value), val)
+//@   ensures header-is-written: called(@fasthttp.(*ResponseHeader).SetCanonical)
 
 //@ func (*DefaultCtx).Location
 //@   pure
@@ -49,14 +54,29 @@ package fiber
 // JSONP: the callback name only reaches the body, never a header.
 //@ func (*DefaultCtx).JSONP
 //@   atcall (*DefaultCtx).setCanonical: constant-header: key == "X-Content-Type-Options" && val == "nosniff"
+//@   atcall @fasthttp.(*ResponseHeader).SetContentType: constant-content-type: contentType == MIMETextJavaScriptCharsetUTF8 && cleanValue(contentType)
 
+// Type / JSON / CBOR: a handler-supplied charset or content type goes through headerValue into fasthttp's Set (which
+// replaces CR/LF only); the built-in content types are constants resp. entries of the MIME table of utils.
 //@ func (*DefaultCtx).Type
+//@   atcall @fasthttp.(*ResponseHeader).Set: no-control-byte-reaches-a-header-value: key == "Content-Type" && cleanValue(value)
+//@   atcall @fasthttp.(*ResponseHeader).Set: mime-then-charset-blanked-bytewise: blankedCopy(value, mimeOf(extension) + "; charset=" + charset[0])
+//@   atcall @fasthttp.(*ResponseHeader).SetContentType: no-control-byte-reaches-a-header-value: cleanValue(contentType)
+//@   atcall @fasthttp.(*ResponseHeader).SetContentType: table-entry-without-charset: len(charset) == 0 && contentType == mimeOf(extension)
+//@   ensures returns-receiver: typeis(result, *DefaultCtx) && unbox(result, *DefaultCtx) == c
 
 //@ func (*DefaultCtx).JSON
+//@   atcall @fasthttp.(*ResponseHeader).Set: no-control-byte-reaches-a-header-value: key == "Content-Type" && cleanValue(value)
+//@   atcall @fasthttp.(*ResponseHeader).Set: handler-content-type-blanked-bytewise: len(ctype) > 0 && blankedCopy(value, ctype[0])
+//@   atcall @fasthttp.(*ResponseHeader).SetContentType: default-content-type: len(ctype) == 0 && contentType == MIMEApplicationJSON && cleanValue(contentType)
 
 //@ func (*DefaultCtx).CBOR
+//@   atcall @fasthttp.(*ResponseHeader).Set: no-control-byte-reaches-a-header-value: key == "Content-Type" && cleanValue(value)
+//@   atcall @fasthttp.(*ResponseHeader).Set: handler-content-type-blanked-bytewise: len(ctype) > 0 && blankedCopy(value, ctype[0])
+//@   atcall @fasthttp.(*ResponseHeader).SetContentType: default-content-type: len(ctype) == 0 && contentType == MIMEApplicationCBOR && cleanValue(contentType)
 
 //@ func (*DefaultCtx).XML
+//@   atcall @fasthttp.(*ResponseHeader).SetContentType: constant-content-type: contentType == MIMEApplicationXML && cleanValue(contentType)
 
 // ---------------------------------------------------------------------------------------------
 // Hand-written parsers of helpers.go: total (no index/slice panic) for every input string.
@@ -106,14 +126,33 @@ package fiber
 
 // Decoding the request body in Content-Encoding order. Safety for every encoding list, termination, and
 // the only allocation fiber itself makes here is the copy of the body as received (proportional to the request).
+// [C05] Before the first decoded layer replaces the request's raw body (SetBodyRaw), the body as received is saved so
+// that Body() can put it back. SetBodyRaw lets fasthttp release the request's body buffer (to a pool shared by all
+// connections when the server does not keep body buffers), so what is saved must be a COPY: a slice of the received
+// length in an array that this call allocated - never a view of the request's body array, which the next request read
+// by any worker may overwrite while this handler is still running (one request's body would surface in another's).
+// Byte slices have an identity in the model (array, offset, length): `!old(allocated(arr(s)))` = the array did not exist
+// when the function was entered.
+//@ macro savedCopy(s) = arr(s) != 0 && !old(allocated(arr(s)))
 //@ func (*DefaultCtx).tryDecodeBodyInOrder
+//@   props C07 C05
 //@   requires out-param: originalBody != nil
+//@   requires [C05] nothing-saved-yet: *originalBody == nil
 //@   modifies heap(C_LJuint8), heap(E_uint8)
 //@   allocbound copy-of-received-body: reqBodyLen(c.fasthttp.Request, epoch)
+//@   atcall @fasthttp.(*Request).SetBodyRaw: [C05] original-saved-in-an-array-of-this-call: savedCopy(*originalBody)
+//@   atcall @fasthttp.(*Request).SetBodyRaw: [C05] saved-before-the-first-replacement: index == 0 ==> len(*originalBody) == reqBodyLen(c.fasthttp.Request, epoch)
+//@   atcall @fasthttp.(*Request).SetBodyRaw: [C05] replaces-the-body-of-this-request: req == c.fasthttp.Request
 //@   loop 1
 //@     invariant index-in-range: rangeindex + 1 <= len(encodings)
+//@     invariant first-round-counts-from-zero: rangeindex + 1 == 0 ==> decodesRealized == 0
+//@     invariant [C05] body-replaced-from-the-first-of-several-codings-on: called(@fasthttp.(*Request).SetBodyRaw) <==> (rangeindex >= 0 && len(encodings) >= 2)
+//@     invariant [C05] saved-once-a-layer-was-replaced: ite(rangeindex >= 0 && len(encodings) >= 2, savedCopy(*originalBody), *originalBody == nil)
 //@     decreases len(encodings) - rangeindex
 //@   ensures error-no-body: result2 != nil ==> result0 == nil
+//@   ensures [C05] saved-original-in-an-array-of-this-call: *originalBody == nil || savedCopy(*originalBody)
+//@   ensures [C05] saved-exactly-when-the-body-was-replaced: (*originalBody == nil) <==> !called(@fasthttp.(*Request).SetBodyRaw)
+//@   ensures [C05] single-coding-nothing-saved: len(encodings) < 2 ==> *originalBody == nil
 
 // Range header parser. For every header value: no slice expression leaves its string, the loop ends
 // (each round consumes the list up to and including the next comma), and every range handed to the
@@ -133,9 +172,13 @@ package fiber
 // Remaining accessors / helpers of the sweep (safety obligations are generated for every function here).
 // ---------------------------------------------------------------------------------------------
 
-// Set goes through fasthttp's sanitising setter: any value is in its domain.
+// Set: fasthttp's Set replaces CR and LF only; every other control byte except HTAB is blanked by headerValue first
+// (fix 5788fb4). Any handler value is in the domain of Set; what reaches fasthttp is a field value a strict client accepts.
 //@ func (*DefaultCtx).Set
 //@   pure
+//@   atcall @fasthttp.(*ResponseHeader).Set: no-control-byte-reaches-a-header-value: cleanValue(value)
+//@   atcall @fasthttp.(*ResponseHeader).Set: key-as-given-value-blanked-bytewise: key == old(key) && blankedCopy(value, val)
+//@   ensures header-is-written: called(@fasthttp.(*ResponseHeader).Set)
 
 // Append/Vary: the joined value reaches the response only through Set (the fasthttp response is not
 // heap-modelled: like Set they write no location the contracts talk about).
@@ -159,12 +202,26 @@ package fiber
 //   ErrBodyTooLarge -> 413, ErrGetOnly -> 405, "timeout" in the text -> 408, anything else -> 400.
 // (ghosts ehCalls/ehRet/sentStatus: zz_contracts_c08_verif.go, fiber_ctx.spec)
 // ---------------------------------------------------------------------------------------------
+//@ macro isBodyLimit(e) = chainIs(e, fasthttp.ErrBodyTooLarge)
+//@ macro isGetOnly(e) = chainIs(e, fasthttp.ErrGetOnly)
+//@ macro opTimeout(e) = asOpError(e) != nil && timesOut(asOpError(e))
+//@ macro handed(err, x) = typeis(err, *Error) && unbox(err, *Error) == x
 //@ func (*App).serverErrorHandler
 //@   props C07 C08
 //@   requires a-transport-error: err != nil
 //@   requires [C08] fresh-request: ehCalls == 0
 //@   atcall (*App).ErrorHandler: mapped-to-framework-status-error: typeis(err, *Error) && (unbox(err, *Error) == ErrRequestHeaderFieldsTooLarge || unbox(err, *Error) == ErrRequestTimeout ||
 //@ ..    unbox(err, *Error) == ErrBadGateway || unbox(err, *Error) == ErrRequestEntityTooLarge || unbox(err, *Error) == ErrMethodNotAllowed || unbox(err, *Error).Code == StatusBadRequest)
+//@   atcall (*App).ErrorHandler: malformed-request-gets-the-mapped-status-431-for-a-small-buffer-error-whatever-else-holds: asSmallBuffer(old(err)) ==> handed(err, ErrRequestHeaderFieldsTooLarge)
+//@   atcall (*App).ErrorHandler: malformed-request-gets-the-mapped-status-408-for-a-net-op-error-that-timed-out: !asSmallBuffer(old(err)) && opTimeout(old(err)) ==> handed(err, ErrRequestTimeout)
+//@   atcall (*App).ErrorHandler: malformed-request-gets-the-mapped-status-502-for-another-net-error: !asSmallBuffer(old(err)) && !opTimeout(old(err)) && asNetError(old(err)) ==> handed(err, ErrBadGateway)
+//@   atcall (*App).ErrorHandler: malformed-request-gets-the-mapped-status-413-for-the-body-limit: !asSmallBuffer(old(err)) && !opTimeout(old(err)) && !asNetError(old(err)) && isBodyLimit(old(err)) ==> handed(err, ErrRequestEntityTooLarge)
+//@   atcall (*App).ErrorHandler: malformed-request-gets-the-mapped-status-405-for-get-only: !asSmallBuffer(old(err)) && !opTimeout(old(err)) && !asNetError(old(err)) && !isBodyLimit(old(err)) && isGetOnly(old(err)) ==> handed(err, ErrMethodNotAllowed)
+//@   atcall (*App).ErrorHandler: malformed-request-gets-the-mapped-status-408-for-any-other-error-whose-Timeout-method-says-so: !asSmallBuffer(old(err)) && !opTimeout(old(err)) && !asNetError(old(err)) && !isBodyLimit(old(err)) && !isGetOnly(old(err)) && asTimeouter(old(err)) && timesOut(timeoutErr) ==> handed(err, ErrRequestTimeout)
+//@   atcall (*App).ErrorHandler: malformed-request-gets-the-mapped-status-400-for-anything-else: !asSmallBuffer(old(err)) && !opTimeout(old(err)) && !asNetError(old(err)) && !isBodyLimit(old(err)) && !isGetOnly(old(err)) && !(asTimeouter(old(err)) && timesOut(timeoutErr)) ==> typeis(err, *Error) && unbox(err, *Error).Code == StatusBadRequest
+//@   atcall @error.Error: error-text-is-read-only-for-the-message-of-the-400-reply-never-for-the-status: recv == old(err) && !asSmallBuffer(recv) && !opTimeout(recv) && !asNetError(recv) && !isBodyLimit(recv) && !isGetOnly(recv) && !(asTimeouter(recv) && timesOut(timeoutErr))
+//@   atcall NewError: only-the-400-reply-is-built-here: code == StatusBadRequest
+//@   ensures status-never-a-function-of-the-error-text: !called(@strings.Contains) && !called(@strings.Index) && !called(@strings.HasPrefix) && !called(@strings.HasSuffix) && !called(@strings.EqualFold) && !called(@strings.ToLower) && !called(@fmt.Sprint) && !called(@fmt.Sprintf)
 //@   atcall (*App).ErrorHandler: [C08] delivered-once: ehCalls == 0
 //@   ensures [C08] exactly-once: ehCalls == old(ehCalls) + 1
 //@   ensures [C08] failing-handler-yields-500: ehRet != nil ==> sentStatus == StatusInternalServerError
